@@ -9,3 +9,5 @@ for P in "$@"; do
   (cd /verif && ./check $P 2>&1 | grep -v "conda" | tail -3)
 done
 git -C /repo checkout -- . && git -C /repo status --short
+# evidence files must come from clean-tree runs: restore the committed ones
+git -C /verif checkout -- evidence 2>/dev/null
